@@ -247,12 +247,15 @@ class ActorMain:
             if os.path.exists(dst + suffix):
                 os.unlink(dst + suffix)
         shutil.copyfile(self.path, dst)
-        had_journal = os.path.exists(self.path + "-journal")
-        if had_journal:
-            shutil.copyfile(self.path + "-journal", dst + "-journal")
+        had_journal = False
+        # rollback journal or write-ahead log, whichever the store uses
+        for suffix in ("-journal", "-wal", "-shm"):
+            if os.path.exists(self.path + suffix):
+                shutil.copyfile(self.path + suffix, dst + suffix)
+                had_journal = True
         out = self.raw(dst)
         out["had_journal"] = had_journal
-        for suffix in ("", "-journal"):
+        for suffix in ("", "-journal", "-wal", "-shm"):
             if os.path.exists(dst + suffix):
                 os.unlink(dst + suffix)
         return out
